@@ -61,23 +61,37 @@ type PN struct {
 type input struct {
 	K     string `json:"k"`
 	State uint64 `json:"state"`
-	Fam   string `json:"fam"`  // SN | IN | PN
-	N     int    `json:"n"`    // number of nodes
-	PNil  int    `json:"pnil"` // probability (in eighths) that a reference is nil
-	Mode  int    `json:"mode"` // 0: VerifDeepCopy   1: dials.Config + View
+	Fam   string `json:"fam"`   // SN | IN | PN
+	N     int    `json:"n"`     // number of nodes
+	PNil  int    `json:"pnil"`  // probability (in eighths) that a reference is nil
+	Mode  int    `json:"mode"`  // 0: VerifDeepCopy   1: dials.Config + View
+	Style int    `json:"style"` // 0: self / back / anywhere; 1: no self references; 2: mostly the next node (long chains and cycles)
 }
 
 // ---- graph generation ----
 
 type gen struct {
-	r    *coqfmt.Rng
-	pnil int
+	r     *coqfmt.Rng
+	pnil  int
+	style int
 }
 
 func (g *gen) target(i, n int) int {
 	// -1 = nil; otherwise self, a back reference, or anything
 	if g.r.Chance(g.pnil, 8) {
 		return -1
+	}
+	switch g.style {
+	case 1:
+		if t := g.r.Intn(n); t != i {
+			return t
+		}
+		return (i + 1) % n
+	case 2:
+		if g.r.Chance(2, 3) {
+			return (i + 1) % n
+		}
+		return g.r.Intn(n)
 	}
 	switch g.r.Intn(5) {
 	case 0:
@@ -404,7 +418,7 @@ type outcome struct {
 }
 
 func buildRoot(in input) reflect.Value {
-	g := &gen{r: coqfmt.NewRng(in.State), pnil: in.PNil}
+	g := &gen{r: coqfmt.NewRng(in.State), pnil: in.PNil, style: in.Style}
 	switch in.Fam {
 	case "SN":
 		return reflect.ValueOf(buildSN(g, in.N)[0])
@@ -621,7 +635,7 @@ func run(raw json.RawMessage) driver.Result {
 		}
 	}
 	return driver.Result{
-		Coq: fmt.Sprintf("Graph %d %s %d %s %s %s %d", in.Mode, coqfmt.List(heap), a.NIn, a.Root, impl, a.TG, a.TRoot),
+		Coq:  fmt.Sprintf("Graph %d %s %d %s %s %s %d", in.Mode, coqfmt.List(heap), a.NIn, a.Root, impl, a.TG, a.TRoot),
 		Kind: fmt.Sprintf("%s-mode%d", in.Fam, in.Mode), Nontrivial: a.Nontrivial, Direct: direct, Tags: tags,
 	}
 }
@@ -647,10 +661,12 @@ func genInputs(r *coqfmt.Rng, n int, tier string) []json.RawMessage {
 			mode = 0
 		}
 		nn := 1 + r.Intn(maxN)
-		if r.Chance(1, 3) {
+		if r.Chance(1, 5) {
 			nn = 1 + r.Intn(3)
+		} else if r.Chance(1, 2) {
+			nn = maxN - r.Intn(maxN/2+1)
 		}
-		add(input{K: "gen", State: r.U64(), Fam: fam, N: nn, PNil: 1 + 2*r.Intn(4), Mode: mode})
+		add(input{K: "gen", State: r.U64(), Fam: fam, N: nn, PNil: []int{1, 1, 2, 3, 5, 7}[r.Intn(6)], Mode: mode, Style: r.Intn(3)})
 	}
 	return out
 }
@@ -669,7 +685,7 @@ func main() {
 		Prop: "C03", CoqImport: "Dials.Check.C03Check", CoqRun: "run_cases",
 		Rule: "random object graphs over the node types SN{Kids []*SN; M map[string]*SN; Arr [2]*SN; Ch chan int; priv int}, " +
 			"IN{Any interface{}; Anys []interface{}; MA map[string]interface{}} (payloads: *IN, typed nil pointers, *SN, shared maps, slices, struct and array values) " +
-			"and PN{Next, Other *PN}; nil-probability of a reference swept over {1,3,5,7}/8, targets biased to self and back references; shared maps, " +
+			"and PN{Next, Other *PN}; nil-probability of a reference swept over {1,2,3,5,7}/8, three target styles (self/back/anywhere, no self references, mostly the next node); shared maps, " +
 			"shared and offset slices; each graph goes through VerifDeepCopy or through dials.Config(ctx,&root)+View in a child process; " +
 			"non-trivial: the graph below the root has a cycle or a pointer/map referenced at least twice; distinct = distinct PRNG case states",
 		Gen: genInputs, Run: run,
